@@ -99,7 +99,7 @@ struct Outcome {           // what one execution of a scenario looked like from 
 };
 struct CallPlan { int fn; int obj; Vec<int> vals; Str dev; int task; bool extra; int scope; bool shortForm; int xget; bool midRoot; };   // xget: 0, or one more read of the returned value through getter number xget, whatever the stored type
 struct ExpPlan { int fn; int count; int flags; int obj; Vec<int> vals; int ret; int scope; };      // flags: 1 ignoreOtherParameters, 2 named scope, 4 short form (last parameter not specified, and not passed by its calls)
-struct Scenario { bool strict, ignoreOther, useScope, preFail; bool nestedCmp /* comparators make a mock call of their own */; bool scopeCopier /* the custom type's copier is installed through the named scope only */; bool unmodOut /* the int output parameter is expected unmodified; calls may then pass no destination (NULL) */; bool crashOn /* crashOnFailure switched on: the crash method (a counter here) must be asked for by the same failures through both interfaces */; bool otherVal /* also read a value through the other mock support (known finding C19-support-level-value-of-other-scope) */; int rounds; int type2 /* fn6's object parameter uses a second custom type: same equality function, other to-string */, tol /* 0 none, else index into tolPool for fn3's double parameter */; Vec<ExpPlan> exps; Vec<CallPlan> calls; Vec<Op> data; };
+struct Scenario { bool strict, ignoreOther, useScope, preFail; bool nestedCmp /* comparators make a mock call of their own */; bool scopeCopier /* the custom type's copier is installed through the named scope only */; bool unmodOut /* the int output parameter is expected unmodified; calls may then pass no destination (NULL) */; bool crashOn /* crashOnFailure switched on: the crash method (a counter here) must be asked for by the same failures through both interfaces */; bool leaveDisabled /* the body ends by switching the mock off */; bool otherVal /* also read a value through the other mock support (known finding C19-support-level-value-of-other-scope) */; int rounds; int type2 /* fn6's object parameter uses a second custom type: same equality function, other to-string */, tol /* 0 none, else index into tolPool for fn3's double parameter */; Vec<ExpPlan> exps; Vec<CallPlan> calls; Vec<Op> data; };
 
 static const char* objType(const Scenario& sc) { return sc.type2 ? "MyType2" : "MyType"; }
 // how many parameters an expectation specifies: all, or all but the last for ignoreOtherParameters (functions with two or more) and for the short form (functions with one or more)
@@ -113,6 +113,7 @@ struct Front {
     virtual void data(const Op& o, Outcome& out) = 0;
     virtual void check(const Scenario& sc) = 0;     // explicit checkExpectations, as a teardown would do
     virtual void clear() = 0;
+    virtual void disable() = 0;     // the test switches the mock off and leaves it so: the clear after the test switches it on again
 };
 
 static Str tagName(const SimpleString& cppType) {
@@ -292,6 +293,7 @@ struct CppFront : public Front {
     }
     void check(const Scenario&) { mock().checkExpectations(); }
     void clear() { mock().clear(); }
+    void disable() { mock().disable(); }
     void data(const Op& op, Outcome& out) {
         MockSupport& M = mock();
         const char* nm = op.s.c_str(); int v = (int)(op.b & 7);
@@ -311,7 +313,8 @@ struct CppFront : public Front {
         case T_OBJ: line += sfmt(" v=MyType(%d)", ((MyType*)g.getObjectPointer())->x); break;
         default: break;
         }
-        out.log.push_back(line);
+        MockNamedValue none = M.getData((Str(nm) + "~never set").c_str());                          // a key nobody stored: both interfaces answer with the same empty value
+        out.log.push_back(line + " | absent tag=" + tagName(none.getType()) + sfmt(" v=%d", none.getType() == "int" ? none.getIntValue() : -1));
     }
 };
 
@@ -455,6 +458,7 @@ struct CFront : public Front {
     }
     void check(const Scenario&) { mock_c()->checkExpectations(); }
     void clear() { mock_c()->clear(); }
+    void disable() { mock_c()->disable(); }
     void data(const Op& op, Outcome& out) {
         MockSupport_c* M = mock_c();
         const char* nm = op.s.c_str(); int v = (int)(op.b & 7);
@@ -475,7 +479,8 @@ struct CFront : public Front {
         case T_OBJ: line += sfmt(" v=MyType(%d)", ((MyType*)g.value.objectValue)->x); break;
         default: break;
         }
-        out.log.push_back(line);
+        MockValue_c none = M->getData((Str(nm) + "~never set").c_str());
+        out.log.push_back(line + " | absent tag=" + tagNameC(none.type) + sfmt(" v=%d", none.type == MOCKVALUETYPE_INTEGER ? none.value.intValue : -1));
     }
 };
 
@@ -495,6 +500,7 @@ static void scenarioBody() {
         if (sc.rounds > 1) { T.front->check(sc); T.front->clear(); }       // check and clear, then the same scenario once more in the same test
     }
     T.out->bodyCompleted = true;
+    if (sc.leaveDisabled) T.front->disable();
 }
 class ScenarioTest : public Utest {
 public:
@@ -559,7 +565,7 @@ struct Engine : public vf::Engine {
         for (int s = 0; s < nScen; s++) {
             Group G; G.tag = "scenario";
             bool strict = w.chance(1, 4), ignoreOther = w.chance(1, 5), scope = w.chance(1, 5);
-            G.args.push_back(strict); G.args.push_back(ignoreOther); G.args.push_back(scope); G.args.push_back(w.chance(1, cfront ? 6 : 10)); G.args.push_back(cfront && w.chance(1, 6) ? 2 : 1); G.args.push_back(cfront && w.chance(1, 5)); G.args.push_back(cfront && w.chance(1, 5) ? (int64_t)w.range(1, 3) : 0); G.args.push_back(cfront && w.chance(1, 12)); G.args.push_back(cfront && w.chance(1, 6)); G.args.push_back(cfront && w.chance(1, 6)); G.args.push_back(cfront && w.chance(1, 6)); G.args.push_back(cfront && w.chance(1, 8));
+            G.args.push_back(strict); G.args.push_back(ignoreOther); G.args.push_back(scope); G.args.push_back(w.chance(1, cfront ? 6 : 10)); G.args.push_back(cfront && w.chance(1, 6) ? 2 : 1); G.args.push_back(cfront && w.chance(1, 5)); G.args.push_back(cfront && w.chance(1, 5) ? (int64_t)w.range(1, 3) : 0); G.args.push_back(cfront && w.chance(1, 12)); G.args.push_back(cfront && w.chance(1, 6)); G.args.push_back(cfront && w.chance(1, 6)); G.args.push_back(cfront && w.chance(1, 6)); G.args.push_back(cfront && w.chance(1, 8)); G.args.push_back(w.chance(1, 8));
             bool mixedScopes = !strict && !scope && w.chance(1, 4), shortForms = w.chance(1, 5);
             int nFn = (int)w.range(1, 4); int fns[4]; for (int i = 0; i < nFn; i++) fns[i] = (int)w.below(N_FN);
             int nExp = (int)w.small(1, 12);
@@ -639,7 +645,7 @@ struct Engine : public vf::Engine {
 
     // -------------------------------------------------------------------------------------------- model
     static void buildScenario(const Group& G, Scenario& sc) {
-        sc.strict = G.arg(0) != 0; sc.ignoreOther = G.arg(1) != 0; sc.useScope = G.arg(2) != 0; sc.preFail = G.arg(3) != 0; sc.rounds = G.arg(4, 1) == 2 ? 2 : 1; sc.type2 = (int)G.arg(5); sc.tol = (int)(G.arg(6) & 3); sc.otherVal = G.arg(7) != 0; sc.crashOn = G.arg(8) != 0; sc.nestedCmp = G.arg(9) != 0; sc.unmodOut = G.arg(10) != 0; sc.scopeCopier = G.arg(11) != 0;
+        sc.strict = G.arg(0) != 0; sc.ignoreOther = G.arg(1) != 0; sc.useScope = G.arg(2) != 0; sc.preFail = G.arg(3) != 0; sc.rounds = G.arg(4, 1) == 2 ? 2 : 1; sc.type2 = (int)G.arg(5); sc.tol = (int)(G.arg(6) & 3); sc.otherVal = G.arg(7) != 0; sc.crashOn = G.arg(8) != 0; sc.nestedCmp = G.arg(9) != 0; sc.unmodOut = G.arg(10) != 0; sc.scopeCopier = G.arg(11) != 0; sc.leaveDisabled = G.arg(12) != 0;
         for (size_t i = 0; i < G.ops.size(); i++) {
             const Op& o = G.ops[i];
             if (o.kind == M_EXPECT) { ExpPlan e; e.fn = (int)(o.a % N_FN); e.count = (int)o.b; e.flags = (int)o.c; e.obj = (int)o.d; e.vals = parseIdx(o.s); e.vals.resize((size_t)FNS[e.fn].np, 0); e.ret = atoi(o.s2.c_str()); e.scope = (e.flags & 2) ? 1 : 0; sc.exps.push_back(e); }
